@@ -131,3 +131,44 @@ class DirectWirePort(WirePort):
         if self._messages:
             return self._messages.popleft()
         return None
+
+
+class jumping_clock:
+    """Parsing, encoding and file code has no business looking at the clock: while this context is active, every
+    clock function the given modules can reach (through `import time` or `from time import ...`) jumps ten seconds per
+    call.  Code that does not look at the clock is not affected at all."""
+
+    NAMES = ('monotonic', 'perf_counter', 'time', 'monotonic_ns', 'perf_counter_ns', 'time_ns')
+
+    def __init__(self, *modules):
+        self.modules = modules
+        self.saved = []
+        self.now = [1.0e6]
+
+    def _fake(self, name):
+        def fn():
+            self.now[0] += 10.0
+            return int(self.now[0] * 1e9) if name.endswith('_ns') else self.now[0]
+        return fn
+
+    def __enter__(self):
+        import time as _time
+        import types
+        fake_mod = types.SimpleNamespace(**{k: getattr(_time, k) for k in dir(_time) if not k.startswith('__')})
+        for name in self.NAMES:
+            setattr(fake_mod, name, self._fake(name))
+        for mod in self.modules:
+            for attr, val in list(vars(mod).items()):
+                if val is _time:
+                    self.saved.append((mod, attr, val))
+                    setattr(mod, attr, fake_mod)
+                elif attr in self.NAMES and val is getattr(_time, attr, None):
+                    self.saved.append((mod, attr, val))
+                    setattr(mod, attr, self._fake(attr))
+        return self
+
+    def __exit__(self, *exc):
+        for mod, attr, val in self.saved:
+            setattr(mod, attr, val)
+        del self.saved[:]
+        return False
